@@ -145,8 +145,10 @@ def _ground_solver(pc, goal, timeout_s):
             nm = t.decl().name()
             if nm == "u_of_str":
                 s.add(EN.str_U(t) == t.arg(0))
+                s.add(EN._not_special(t))
             elif nm == "u_of_int":
                 s.add(EN.int_U(t) == t.arg(0))
+                s.add(EN._not_special(t))
             elif nm == "Path":
                 s.add(EN.unPath_U(t) == t.arg(0))
             for c in t.children():
@@ -193,8 +195,10 @@ def _candidate(pc, goal, scope, timeout_s, len_consts):
             nm = t.decl().name()
             if nm == "u_of_str":
                 s2.add(EN.str_U(t) == t.arg(0))
+                s2.add(EN._not_special(t))
             elif nm == "u_of_int":
                 s2.add(EN.int_U(t) == t.arg(0))
+                s2.add(EN._not_special(t))
             elif nm == "Path":
                 s2.add(EN.unPath_U(t) == t.arg(0))
             for c in t.children():
